@@ -31,6 +31,8 @@ type c08case struct {
 	Fills bool    `json:"fills"` // also run the two fills + backtracking alone (fresh matrices)
 	Fresh bool    `json:"fresh"` // use a fresh arena for this case (to compare with the reused one)
 	Kind  string  `json:"kind"`  // "" (a read pair) | "tables" (dump of the tables behind the model, see c08tables.go)
+	AnnA  map[string]any `json:"anna"` // annotations read A already carries (e.g. those of a previous obipairing run)
+	API   bool    `json:"api"`   // also call the other exported entry points of the anchored files (c08api.go)
 	Cmp   bool    `json:"cmp"`   // run the pair a second time with a FRESH arena and a FRESH shift map (observation "fresh")
 }
 
@@ -91,6 +93,7 @@ type c08obs struct {
 	Asm       *c08asm `json:"asm,omitempty"`
 	Fresh     *c08fresh `json:"fresh,omitempty"`
 	Vote      *c08vote  `json:"vote,omitempty"`
+	Api       *c08api   `json:"api,omitempty"`
 }
 
 var c08arena obialign.PEAlignArena
@@ -117,6 +120,15 @@ func c08mk(id, s string, q []int) *obiseq.BioSequence {
 	return obiseq.NewBioSequenceWithQualities(id, []byte(s), "", c08bytes(q))
 }
 
+// c08mkA is read A of a case, with the annotations the case gives it.
+func c08mkA(id string, c c08case) *obiseq.BioSequence {
+	sa := c08mk(id, c.A, c.QA)
+	for k, v := range c.AnnA {
+		sa.SetAttribute(k, v)
+	}
+	return sa
+}
+
 func c08align(c c08case, o *c08obs, arena obialign.PEAlignArena, shifts *map[int]int) {
 	defer func() {
 		if r := recover(); r != nil {
@@ -141,28 +153,34 @@ func c08assemble(c c08case, arena obialign.PEAlignArena, shifts *map[int]int) (a
 			c08arenaOK = false
 		}
 	}()
-	sa, sb := c08mk("A", c.A, c.QA), c08mk("B", c.B, c.QB)
+	sa, sb := c08mkA("A", c), c08mk("B", c.B, c.QB)
 	cons := obipairing.AssemblePESequences(sa, sb, c.Gap, c.Scale, c.Delta, c.MinOv, c.MinId, true, false,
 		c.Fast, c.Rel, arena, shifts)
 	a.Kind = "ok"
 	a.Seq = string(cons.Sequence())
 	a.Qual = c08ints(cons.Qualities())
-	a.Annot = map[string]any{}
+	a.Annot = c08annot(cons.Annotations())
+	return a
+}
+
+// c08annot projects the annotations of a consensus: the pairing_mismatches map is reduced to its number of entries.
+func c08annot(an map[string]any) map[string]any {
+	r := map[string]any{}
 	keys := []string{}
-	for k := range cons.Annotations() {
+	for k := range an {
 		keys = append(keys, k)
 	}
 	sort.Strings(keys)
 	for _, k := range keys {
-		v := cons.Annotations()[k]
+		v := an[k]
 		switch t := v.(type) {
 		case map[string]int:
-			a.Annot[k] = len(t)
+			r[k] = len(t)
 		default:
-			a.Annot[k] = v
+			r[k] = v
 		}
 	}
-	return a
+	return r
 }
 
 func c08vote_(c c08case) (v *c08vote) {
@@ -259,6 +277,13 @@ func c08run(c c08case) any {
 			}
 			o.Vote = c08vote_(c)
 		}
+	}
+	if c.API && la > 0 && lb > 0 {
+		var p []int
+		if o.Kind == "ok" {
+			p = o.Path
+		}
+		o.Api = c08apiRun(c, p)
 	}
 	return o
 }
